@@ -1,4 +1,4 @@
 SPECIFICATION Spec
-CONSTANTS MaxOrder = 5 MaxKernel = 7 Denom = 2 MaxSum = 99 MarginElseIf = FALSE OnlyN = 99 OnlyF = 99 OnlyQ = 99 Keep = 29
+CONSTANTS MaxOrder = 5 MaxKernel = 7 Denom = 2 MaxSum = 99 MarginElseIf = FALSE OnlyN = 99 OnlyF = 99 OnlyQ = 99 AlgoSum = 5 Keep = 29
 INVARIANTS Check
 CHECK_DEADLOCK FALSE
